@@ -23,9 +23,11 @@ REFS = ["/abs/{n}.{x}", "rel/{n}.{x}", "../up/{n}.{x}", "./{n}.{x}", "{n}.{x}?v=
 ODD_REFS = [" /abs/{n}.{x}", "rel/{n}.{x} ", "  ../up/{n}.{x}\n", "img\\{n}.{x}", "\\abs\\{n}.{x}", "\t{n}.{x}", " https://secure.example/a/{n}.{x} "]
 
 
-def ref(r, n, x, odd=False):
+def ref(r, n, x, odd=False, relative_only=False):
     if odd and r.random() < 0.2:
-        return r.choice(ODD_REFS).format(n=n, x=x)
+        # (script elements: the extractor's extra regex heuristic picks absolute URLs out of the element's text; the model only
+        # approximates it, so padded *absolute* values are left to the other tags)
+        return r.choice([o for o in ODD_REFS if not (relative_only and "://" in o)]).format(n=n, x=x)
     return r.choice(REFS).format(n=n, x=x)
 
 
@@ -36,7 +38,8 @@ def browser_join(page, u):
 
 
 def attr(r, k, v):
-    q = r.choice(['"', "'", ""]) if (" " not in v and "'" not in v and '"' not in v and "=" not in v and ">" not in v and v) else r.choice(['"', "'"])
+    plain = v and not any(c in v for c in " \t\n\r\f'\"=>`<")      # only then may the value go unquoted
+    q = r.choice(['"', "'", ""]) if plain else r.choice(['"', "'"])
     if q == "'" and "'" in v:
         q = '"'
     if q == '"' and '"' in v:
@@ -64,7 +67,7 @@ def gen_doc(r, k):
             u1, u2 = u1.replace(",", ""), u2.replace(",", "")
             add("img", [("src", u0), ("srcset", "%s 1x, %s 2x" % (u1, u2))]); planted += [("img", u0), ("img", u1), ("img", u2)]
         elif kind == "script":
-            u = ref(r, name(), "js", odd=True); add("script", [("src", u)], void=False); planted.append(("script", u))
+            u = ref(r, name(), "js", odd=True, relative_only=True); add("script", [("src", u)], void=False); planted.append(("script", u))
         elif kind == "css":
             u = ref(r, name(), "css", odd=True); add("link", [("rel", "stylesheet"), ("href", u)]); planted.append(("link", u))
         elif kind == "icon":
